@@ -13,7 +13,7 @@ macro_rules! share_bytes {
         #[kani::stub(std::backtrace::Backtrace::capture, no_backtrace)]
         #[kani::stub(alloc::fmt::format, no_format)]
         #[kani::stub(anyhow::__private::format_err, error_is_failure)]
-        fn $name() {
+        pub fn $name() {
             let st = $st;
             let v: [u8; $nbytes] = kani::any();
             let r0: [u8; $nbytes] = kani::any();
@@ -62,7 +62,7 @@ macro_rules! share_inj {
         #[kani::stub(std::backtrace::Backtrace::capture, no_backtrace)]
         #[kani::stub(alloc::fmt::format, no_format)]
         #[kani::stub(anyhow::__private::format_err, error_is_failure)]
-        fn $name() {
+        pub fn $name() {
             let m: Option<u128> = $m;
             let mk: u128 = if $w == 128 { u128::MAX } else { (1u128 << $w) - 1 };
             let v: u128 = kani::any();
@@ -93,3 +93,43 @@ share_inj!(share_inj_w16, Some(1 << 16), 16);
 share_inj!(share_inj_w32, Some(1 << 32), 32);
 share_inj!(share_inj_w64, Some(1 << 64), 64);
 share_inj!(share_inj_w128, None, 128);
+
+// ---- the real typed_value::generalized_subtract / generalized_add on scalar leaves
+use ciphercore_base::data_values::Value;
+use ciphercore_base::typed_value::{generalized_add, generalized_subtract};
+
+macro_rules! share_tv {
+    ($name:ident, $st:expr, $nbytes:expr) => {
+        #[kani::proof]
+        #[kani::unwind(18)]
+        #[kani::stub(std::backtrace::Backtrace::capture, no_backtrace)]
+        #[kani::stub(alloc::fmt::format, no_format)]
+        #[kani::stub(anyhow::__private::format_err, error_is_failure)]
+        pub fn $name() {
+            let v: [u8; $nbytes] = kani::any();
+            let r0: [u8; $nbytes] = kani::any();
+            let r1: [u8; $nbytes] = kani::any();
+            let val = Value::from_bytes(v.to_vec());
+            let v0 = Value::from_bytes(r0.to_vec());
+            let v1 = Value::from_bytes(r1.to_vec());
+            let t = generalized_subtract(val, v0.clone(), scalar_type($st)).unwrap();
+            let v2 = generalized_subtract(t, v1.clone(), scalar_type($st)).unwrap();
+            let s01 = generalized_add(v0, v1, scalar_type($st)).unwrap();
+            let s = generalized_add(s01, v2.clone(), scalar_type($st)).unwrap();
+            let ok = s.access_bytes(|b| {
+                assert!(b.len() == $nbytes);
+                let i: usize = kani::any();
+                kani::assume(i < $nbytes);
+                assert!(b[i] == v[i]);
+                Ok(true)
+            });
+            match ok { Ok(_) => {}, Err(e) => { forget(e); assert!(false); } }
+            kani::cover!(true);
+            forget(s); forget(v2);
+        }
+    };
+}
+share_tv!(share_tv_u8, UINT8, 1);
+share_tv!(share_tv_i64, INT64, 8);
+share_tv!(share_tv_u128, UINT128, 16);
+share_tv!(share_tv_i128, INT128, 16);
